@@ -283,6 +283,8 @@ pub struct World<A: App> {
     /// Blackhole: drop everything sent by these nodes
     pub blackhole: Vec<bool>,
     pub blackhole_default: bool,
+    /// Additional addresses that reach a node (a migrated client is reachable at its new address)
+    pub aliases: Vec<(SocketAddr, usize)>,
     /// Nodes that no longer receive anything (frozen; the puppet speaks in their place)
     pub deaf: Vec<bool>,
     /// Take a probe snapshot before every poll_transmit (C12/C13)
@@ -298,6 +300,10 @@ pub struct World<A: App> {
 
 pub fn addr(n: usize) -> SocketAddr {
     format!("[2001:db8::{:x}]:{}", n + 1, 4000 + n).parse().unwrap()
+}
+
+pub fn addr4(n: usize) -> SocketAddr {
+    format!("192.0.2.{}:{}", n + 1, 4000 + n).parse().unwrap()
 }
 
 impl<A: App> World<A> {
@@ -325,6 +331,7 @@ impl<A: App> World<A> {
             make_app,
             blackhole: Vec::new(),
             blackhole_default: false,
+            aliases: Vec::new(),
             deaf: Vec::new(),
             probe_pre: false,
             hold_drained: false,
@@ -393,7 +400,7 @@ impl<A: App> World<A> {
     }
 
     fn node_of(&self, a: SocketAddr) -> Option<usize> {
-        self.nodes.iter().position(|n| n.addr == a)
+        self.nodes.iter().position(|n| n.addr == a).or_else(|| self.aliases.iter().find(|(x, _)| *x == a).map(|(_, n)| *n))
     }
 
     fn fate_of(&self, idx: u64) -> Fate {
@@ -1041,6 +1048,8 @@ pub struct PairCfg {
     pub client_max_udp: Option<u16>,
     /// Lifetime of NEW_TOKEN validation tokens (None = quinn's default of two weeks)
     pub token_lifetime: Option<Duration>,
+    /// Use IPv4 addresses for the two nodes
+    pub ipv4: bool,
 }
 
 impl Default for PairCfg {
@@ -1065,6 +1074,7 @@ impl Default for PairCfg {
             server_max_udp: None,
             client_max_udp: None,
             token_lifetime: None,
+            ipv4: false,
         }
     }
 }
@@ -1156,6 +1166,10 @@ impl<A: App> Pair<A> {
             }
         });
         assert_eq!((s, c), (SERVER, CLIENT));
+        if cfg.ipv4 {
+            w.nodes[SERVER].addr = addr4(SERVER);
+            w.nodes[CLIENT].addr = addr4(CLIENT);
+        }
         if cfg.retry {
             w.nodes[SERVER].policy = AcceptPolicy::Retry;
         }
